@@ -127,6 +127,7 @@ def run(ctx, rep):
                 return None
             outcomes = set()
             ident = None
+            id_env = {}
             for p in AbsInt(F, fn, decide_call=decide, max_paths=5000).run():
                 # skip the arity-error path
                 r = simp(p.env.get('_0'))
@@ -136,6 +137,7 @@ def run(ctx, rep):
                         val = deref(p.env, r[3][0])
                         if f in OWN and OWN[f] == ty:
                             ident = val
+                            id_env = p.env
                     else:
                         e = r[3][0]
                         outcomes.add('error:' + (e[2] if e[0] == 'agg' else '?'))
@@ -151,7 +153,10 @@ def run(ctx, rep):
             rep.ob(has_return and not bad, 'R14.3', fn.path, 'cell (%s, %s)' % (f.replace('call_', ''), ty), 'outcomes: %s' % sorted(outcomes), fn.loc())
             if f in OWN and OWN[f] == ty:
                 s_ = show(ident) if ident else None
-                is_arg = ident is not None and (('index' in s_ or 'deref' in s_) and '0_usize' in s_ and 'call' not in str(ident[0]) or ident[0] in ('index', 'deref'))
+                from rules.unsafe_inv import canon
+                cid = canon(id_env, ident) if ident is not None else None
+                is_arg = ident is not None and ((('index' in s_ or 'deref' in s_) and '0_usize' in s_ and 'call' not in str(ident[0]) or ident[0] in ('index', 'deref'))
+                                                or cid == ('index', ('obj', 'param*', 1), ('int', 0, 'usize')))
                 rep.ob(bool(is_arg), 'R14.4', fn.path, 'identity on %s' % ty, 'returns args[0] itself: %s' % s_, fn.loc())
         rep.ob(not und, 'R14.3', fn.path, 'panic sources', 'undischarged panic sources in this builtin: %s' % [s['what'].split('::')[-1] for s in und], fn.loc())
     shared.check_int_encoder_range(ctx, rep, 'R14.5', only_prefix='builtins::')
